@@ -355,3 +355,46 @@ B('d3_b_delegate_returns_nothing', ['C09'], 'R09.b',
   (A, _DEFAULT_RENDER_FULL, "    return _adapt_to_accept(request, _error, MIME_SUPPORT_MAP)\n"))
 B('d3_b_delegate_call_conditional', ['C09'], 'R09.b', (E, _AFTER_DEFAULT_MIME, _AFTER_DEFAULT_MIME + _SHARED_ADAPT), (A, _IMPORT_OLD, _IMPORT_NEW),
   (A, _DEFAULT_RENDER_FULL, "    if kwargs:\n        _adapt_to_accept(request, _error, MIME_SUPPORT_MAP)\n    return _error\n"))
+
+# ------------------------------------------------------------------ fourth pass: a serialiser inherited from a mixin, registration driven by an argument
+# the to_html / to_xml a class of the family *resolves to* is analysed (also when it lives in a mixin outside the family,
+# the template name being a class attribute read per inheriting class); the (name, source) table of the registering function
+# may be the argument of its module-level call
+_CISE_HEAD = "class ContextualInternalServerError(InternalServerError):\n"
+_CNF_HEAD = "class ContextualNotFound(NotFound):\n"
+_TOHTML_500 = "    def to_html(self, *a, **kw):\n        render_ctx = self.to_dict()\n        return CONTEXTUAL_ENV.render('500.html', render_ctx)\n"
+_TOHTML_404 = "    def to_html(self, *a, **kw):\n        render_ctx = self.to_dict()\n        return CONTEXTUAL_ENV.render('404.html', render_ctx)\n"
+_PAGE_MIXIN = ("class _DebugPage(object):\n    _page = None\n\n    def to_html(self, *a, **kw):\n        render_ctx = self.to_dict()\n"
+               "        return CONTEXTUAL_ENV.render(self._page, render_ctx)\n\n\n")
+_CISE_MIXED = "class ContextualInternalServerError(_DebugPage, InternalServerError):\n"
+_CNF_MIXED = "class ContextualNotFound(_DebugPage, NotFound):\n"
+_REG_DEF = "def _register_templates():\n" + _REGISTER
+_REG_DEF_ARG = ("def _register_templates(named_pages):\n    for page_name, page_source in named_pages:\n"
+                "        CONTEXTUAL_ENV.register_source(page_name, page_source)\n")
+_REG_CALL = "\n_register_templates()\n"
+_REG_CALL_ARG = "\n_register_templates([('500.html', HTML_500_TMPL),\n                     ('404.html', HTML_404_TMPL)])\n"
+_MIXIN_EDITS = ((E, _CISE_HEAD, _PAGE_MIXIN + _CISE_MIXED), (E, _CNF_HEAD, _CNF_MIXED),
+                (E, _TOHTML_500, "    _page = '500.html'\n"), (E, _TOHTML_404, "    _page = '404.html'\n"))
+T('d4_t_debug_page_mixin', ['C09', 'C08'], *_MIXIN_EDITS)
+T('d4_t_register_table_argument', ['C09'], (CE, _REG_DEF, _REG_DEF_ARG), (CE, _REG_CALL, _REG_CALL_ARG))
+T('d4_t_register_pair_arguments', ['C09'],
+  (CE, _REG_DEF, "def _register_page(page_name, page_source):\n    CONTEXTUAL_ENV.register_source(page_name, page_source)\n"),
+  (CE, _REG_CALL, "\n_register_page('500.html', HTML_500_TMPL)\n_register_page('404.html', page_source=HTML_404_TMPL)\n"))
+T('d4_t_mixin_and_table_argument', ['C09'], *(_MIXIN_EDITS + ((CE, _REG_DEF, _REG_DEF_ARG), (CE, _REG_CALL, _REG_CALL_ARG))))
+B('d4_b_mixin_page_not_registered', ['C09'], 'R09.d',
+  *(_MIXIN_EDITS[:3] + ((E, _TOHTML_404, "    _page = '404_debug.html'\n"),)))
+B('d4_b_mixin_interpolates_raw_fields', ['C09'], 'R09.c',
+  (E, _CISE_HEAD, _PAGE_MIXIN.replace("        return CONTEXTUAL_ENV.render(self._page, render_ctx)\n",
+                                      "        return '<h1>%s</h1><p>%s</p>' % (render_ctx['message'], render_ctx['detail'])\n") + _CISE_MIXED),
+  *_MIXIN_EDITS[1:])
+B('d4_b_mixin_xml_raw_detail', ['C09'], 'R09.c',
+  (E, _CISE_HEAD, _PAGE_MIXIN + "class _RawXML(object):\n    def to_xml(self):\n        return '<http_error><detail>{0}</detail></http_error>'.format(self.detail)\n\n\n"
+      "class ContextualInternalServerError(_RawXML, _DebugPage, InternalServerError):\n"), *_MIXIN_EDITS[1:])
+B('d4_b_table_argument_misses_404', ['C09'], 'R09.d', (CE, _REG_DEF, _REG_DEF_ARG),
+  (CE, _REG_CALL, "\n_register_templates([('500.html', HTML_500_TMPL)])\n"))
+B('d4_b_table_argument_raw_filter_row', ['C09'], 'R09.d', (CE, _REG_DEF, _REG_DEF_ARG),
+  (CE, _REG_CALL, "\n_register_templates([('500.html', HTML_500_TMPL),\n"
+                  "                     ('404.html', HTML_404_TMPL.replace('<td>{request.path}</td>', '<td>{request.path|s}</td>'))])\n"))
+B('d4_b_pair_arguments_crossed_name', ['C09'], 'R09.d',
+  (CE, _REG_DEF, "def _register_page(page_name, page_source):\n    CONTEXTUAL_ENV.register_source(page_name, page_source)\n"),
+  (CE, _REG_CALL, "\n_register_page('500.html', HTML_500_TMPL)\n_register_page('500.html', HTML_404_TMPL)\n"))
